@@ -53,9 +53,10 @@ type rcCfg struct {
 	PingInterval time.Duration
 	WaitBase     time.Duration
 	WaitMax      time.Duration
-	PushAfterAck []string // messages "topic:payload:qos" the broker pushes after every accepting CONNACK
-	HandlerPhase byte     // 0: no handler; 'B' before Connect; 'C' after Connect
+	PushAfterAck []string       // messages "topic:payload:qos" the broker pushes after every accepting CONNACK
+	HandlerPhase byte           // 0: no handler; 'B' before Connect; 'C' after Connect
 	AfterConnect func(r *rcRun) // called by the main task right after Connect returned successfully
+	KeepAliveOpt uint16         // mqtt.WithKeepAlive(seconds) connect option (the reconnecting client derives its ping interval from it)
 }
 
 type rcState struct {
@@ -66,21 +67,21 @@ type rcState struct {
 }
 
 type rcRun struct {
-	cfg       *rcCfg
-	net       *env.Net
-	broker    *env.Broker
-	rc        mqtt.ReconnectClient
-	retry     *mqtt.RetryClient
-	submitted []bool
-	accepted  []bool
-	subErr    []error
-	onErr     []error
-	states    []rcState
-	handled   []string
-	bases     []*mqtt.BaseClient
-	connectOK bool
-	connErr   error
-	log       int // object for Event
+	cfg        *rcCfg
+	net        *env.Net
+	broker     *env.Broker
+	rc         mqtt.ReconnectClient
+	retry      *mqtt.RetryClient
+	submitted  []bool
+	accepted   []bool
+	subErr     []error
+	onErr      []error
+	states     []rcState
+	handled    []string
+	bases      []*mqtt.BaseClient
+	connectOK  bool
+	connErr    error
+	log        int // object for Event
 	handledBy  []rcHandled
 	registered []rcRegistered
 	onErrAt    []int64 // virtual time of each OnError call
@@ -159,6 +160,13 @@ func rcExecuteInto(cfg *rcCfg, out **rcRun) *rcRun {
 		r.broker.AfterConnAck = func(b *env.Broker, c *env.Conn) {
 			for _, m := range cfg.PushAfterAck {
 				p := strings.Split(m, ":")
+				if len(p) > 3 && p[3] == "dup" {
+					// a message the broker considers in flight from the previous connection: re-sent with DUP=1
+					if c.ID > 0 {
+						c.Send(env.EncPublish(p[0], []byte(fmt.Sprintf("%s@c%d", p[1], c.ID)), p[2][0]-'0', 900+uint16(c.ID), true, false), "push (redelivery)")
+					}
+					continue
+				}
 				b.Push(c, p[0], fmt.Sprintf("%s@c%d", p[1], c.ID), p[2][0]-'0')
 			}
 		}
@@ -245,7 +253,11 @@ func rcExecuteInto(cfg *rcCfg, out **rcRun) *rcRun {
 			r.submit(i)
 		}
 	})
-	_, r.connErr = rc.Connect(vctx.Background(), "cid", mqtt.WithCleanSession(cfg.Clean))
+	copts := []mqtt.ConnectOption{mqtt.WithCleanSession(cfg.Clean)}
+	if cfg.KeepAliveOpt > 0 {
+		copts = append(copts, mqtt.WithKeepAlive(cfg.KeepAliveOpt))
+	}
+	_, r.connErr = rc.Connect(vctx.Background(), "cid", copts...)
 	r.connectOK = r.connErr == nil
 	if cfg.HandlerPhase == 'C' {
 		rc.Handle(h)
@@ -387,4 +399,15 @@ func rcName(reqs []rcReq) string {
 		s = append(s, q.String())
 	}
 	return strings.Join(s, ",")
+}
+
+// rcLateOnlyLast reports whether the outage / handshake phases ('O', 'H') occur only on the last
+// request of the workload (the quick tiers restrict themselves to such workloads).
+func rcLateOnlyLast(reqs []rcReq) bool {
+	for i, q := range reqs {
+		if (q.Phase == 'O' || q.Phase == 'H') && i != len(reqs)-1 {
+			return false
+		}
+	}
+	return true
 }
